@@ -90,7 +90,7 @@ Proof.
 Qed.
 
 Lemma wake_pick_all_in n ws ch u : (length ws <= n)%nat -> In u ws -> In u (fst (wake_pick n ws ch [])).
-Proof. intros H I. rewrite wake_pick_all by exact H. cbn. rewrite app_nil_r. apply in_rev in I. rewrite rev_involutive in I. apply in_rev. rewrite rev_involutive. apply in_rev in I. exact I. Qed.
+Proof. intros H I. rewrite wake_pick_all by exact H. cbn. rewrite app_nil_r. apply -> in_rev. exact I. Qed.
 
 (* ---------- decomposition of a step ---------- *)
 Lemma step_decomp s t ch s' ch' site :
@@ -110,7 +110,7 @@ Proof.
   destruct (tstep _ _ _ _ th) as [o|] eqn:T; [|discriminate].
   destruct (o_wake o) as [[g n]|] eqn:W.
   - destruct (wake_pick n (waiters s g) ch []) as [woken ch2] eqn:P.
-    injection E as <- _ _. exists th, o, woken. cbn. rewrite W. repeat split; auto.
+    injection E as <- _ _. exists th, o, woken. cbn. rewrite W, P. repeat split; auto.
   - injection E as <- _ _. exists th, o, []. cbn. rewrite W, wake_tids_nil. repeat split; auto.
 Qed.
 
@@ -149,6 +149,12 @@ Proof.
   nia.
 Qed.
 
+Lemma nth_firstn_lt {A} (l : list A) m k d : (k < m)%nat -> nth k (firstn m l) d = nth k l d.
+Proof. revert m k; induction l as [|a l IH]; intros m k Hk; destruct m; destruct k; cbn; auto; try lia. apply IH; lia. Qed.
+
+Lemma nth_skipn' {A} (l : list A) m k d : nth k (skipn m l) d = nth (m + k) l d.
+Proof. revert m k; induction l as [|a l IH]; intros m k; destruct m; cbn; auto. destruct k; auto. Qed.
+
 Lemma nth_grp_bits c bs g i :
   (0 < c_gs c)%nat -> grp c i = g -> nth (i - g * c_gs c) (grp_bits c bs g) false = nth i bs false.
 Proof.
@@ -157,23 +163,7 @@ Proof.
   pose proof (Nat.mod_upper_bound i (c_gs c) ltac:(lia)) as M.
   assert (L : (g * c_gs c <= i)%nat) by (subst g; nia).
   assert (U : (i - g * c_gs c < c_gs c)%nat) by (subst g; nia).
-  revert U. generalize (i - g * c_gs c)%nat as k. intros k U.
-  assert (K : (i = g * c_gs c + (i - g * c_gs c))%nat) by lia.
-  remember (i - g * c_gs c)%nat as k0 eqn:Ek0 in K.
-  assert (forall (l : list bool) m k, (k < m)%nat -> nth k (firstn m l) false = nth k l false) as FN.
-  { induction l as [|a l IH]; intros m k' Hk; destruct m; destruct k'; cbn; auto; try lia. apply IH; lia. }
-  assert (forall (l : list bool) m k, nth k (skipn m l) false = nth (m + k) l false) as SN.
-  { induction l as [|a l IH]; intros m k'; destruct m; cbn; auto. destruct k'; auto. }
-  intros. subst k0. clear FN SN. revert L U. intros.
-  (* restate directly *)
-  assert (forall k, (k < c_gs c)%nat -> nth k (firstn (c_gs c) (skipn (g * c_gs c) bs)) false = nth (g * c_gs c + k) bs false) as Q.
-  { intros k1 Hk1.
-    assert (forall (l : list bool) m k, (k < m)%nat -> nth k (firstn m l) false = nth k l false) as FN.
-    { induction l as [|a l IH]; intros m k' Hk; destruct m; destruct k'; cbn; auto; try lia. apply IH; lia. }
-    assert (forall (l : list bool) m k, nth k (skipn m l) false = nth (m + k) l false) as SN.
-    { induction l as [|a l IH]; intros m k'; destruct m; cbn; auto. destruct k'; auto. }
-    rewrite FN by exact Hk1. apply SN. }
-  rewrite Q by lia. f_equal. lia.
+  rewrite nth_firstn_lt by exact U. rewrite nth_skipn'. f_equal. lia.
 Qed.
 
 Lemma grp_bits_none c bs g i :
